@@ -578,6 +578,18 @@ func forcedCases(r *hx.Rng, tier string) []Case {
 		}
 	}
 
+	// DID store: SaveDID parked inside its store calls (name lookup, doc put, name put), another SaveDID / lookup meanwhile
+	for park := 0; park < 3; park++ {
+		for _, ab := range [][2]Op{
+			{{Kind: "dsave", ID: 1, M: 1}, {Kind: "dsave", ID: 1, M: 2}},
+			{{Kind: "dsave", ID: 1, M: 1}, {Kind: "dbyname", ID: 1}},
+			{{Kind: "dsave", ID: 1, M: 1}, {Kind: "dsave", ID: 2, M: 2}},
+		} {
+			a, b := ab[0], ab[1]
+			cs = append(cs, Case{Comp: "did", Mode: "forced", A: &a, B: &b, Park: park, Post: []Op{{Kind: "dbyname", ID: 1}, {Kind: "dbyname", ID: 2}}})
+		}
+	}
+
 	// Message registry: a delivery parked between two of its sends (or before the first), an Unregister/Register
 	// of another or the same channel meanwhile; at least two channels registered
 	mpres := [][]Op{{{Kind: "mreg", U: 1}, {Kind: "mreg", U: 2}, {Kind: "mreg", U: 3}}, {{Kind: "mreg", U: 2}, {Kind: "mreg", U: 1}}}
@@ -610,7 +622,7 @@ func stressCases(r *hx.Rng, tier string) []Case {
 			ops := 2 + r.Intn(5)
 
 			limit := 40
-			if comp == "inbox" || comp == "kms" {
+			if comp == "inbox" || comp == "kms" || comp == "did" {
 				limit = 18 // order-sensitive states (message lists, fresh ids): keeps the witness search feasible
 			}
 
@@ -634,6 +646,8 @@ func stressCases(r *hx.Rng, tier string) []Case {
 	add("sess", Stack{}, 120)
 	add("reg", Stack{}, 120)
 	add("msg", Stack{}, 120)
+	add("did", Stack{}, 60)
+	add("churn", Stack{Base: "leveldb"}, 10)
 
 	for _, st := range provStacks() {
 		add("prov", st, 40)
